@@ -29,7 +29,7 @@ A == INSTANCE Asm          \* only its pure helpers: Key, Lookup, JoinPath
 
 Num(n) == [k |-> "num", n |-> n]
 DEFAULT_PC == 49152
-FUEL == 20000              \* instructions after which a run counts as not terminating (nested 256-iteration loops fit)
+FUEL == 60000              \* instructions after which a run counts as not terminating (nested 256-iteration loops fit)
 
 (* ---------------------------------------------------------------- expressions *)
 RECURSIVE Ids(_)
@@ -204,21 +204,32 @@ TestNames(ss, scope) ==
 (* which an assertion placed at its pc is not true: what the machine would do after that point     *)
 (* cannot matter to the verdict (and a failing test may well loop forever behind its failure)      *)
 Holds(T, c) == \A j \in 1..Len(T.asserts) : T.asserts[j].pc = c.pc => Truth(T.asserts[j], c, T.sigma) = "true"
-RECURSIVE PathFrom(_, _, _)
+(* (evaluated in chunks of CHUNK states: TLC does not eliminate tail calls, and a recursion thousands of levels deep *)
+(*  makes every garbage collection scan a huge stack - measured cubic cost in the length of the run)               *)
+CHUNK == 128
+RECURSIVE PathChunk(_, _, _, _), PathFrom(_, _, _)
+PathChunk(T, c, fuel, k) ==
+  IF c.unspec THEN [p |-> <<>>, c |-> c, fuel |-> fuel, done |-> TRUE]
+  ELSE IF Rd(c.mem, c.pc) = 0 \/ fuel = 0 \/ ~Holds(T, c) THEN [p |-> <<c>>, c |-> c, fuel |-> fuel, done |-> TRUE]
+  ELSE IF k = 0 THEN [p |-> <<>>, c |-> c, fuel |-> fuel, done |-> FALSE]
+  ELSE LET r == PathChunk(T, Step(c), fuel - 1, k - 1) IN [r EXCEPT !.p = <<c>> \o @]
 PathFrom(T, c, fuel) ==
-  IF c.unspec THEN <<>>
-  ELSE IF Rd(c.mem, c.pc) = 0 \/ fuel = 0 \/ ~Holds(T, c) THEN <<c>>
-  ELSE <<c>> \o PathFrom(T, Step(c), fuel - 1)
+  LET r == PathChunk(T, c, fuel, CHUNK) IN
+  IF r.done THEN r.p ELSE r.p \o PathFrom(T, r.c, r.fuel)
 Path(T) == PathFrom(T, Reset(T.entry, T.mem), FUEL)
 
 (* tier 2 only: the registers along the implementation-shaped path (Cpu!StepM with mirror = TRUE, i.e. adc/sbc  *)
 (* binary although D is set), assertions ignored.  Used to compare hook traces of runs on which the property is   *)
 (* silent because of decimal mode; a mismatch there is model drift, never a violation.                          *)
-RECURSIVE MirrorFrom(_, _)
+RECURSIVE MirrorChunk(_, _, _), MirrorFrom(_, _)
+MirrorChunk(c, fuel, k) ==
+  IF c.unspec THEN [p |-> <<>>, c |-> c, fuel |-> fuel, done |-> TRUE]
+  ELSE IF Rd(c.mem, c.pc) = 0 \/ fuel = 0 THEN [p |-> <<Regs(c)>>, c |-> c, fuel |-> fuel, done |-> TRUE]
+  ELSE IF k = 0 THEN [p |-> <<>>, c |-> c, fuel |-> fuel, done |-> FALSE]
+  ELSE LET r == MirrorChunk(StepM(c, TRUE), fuel - 1, k - 1) IN [r EXCEPT !.p = <<Regs(c)>> \o @]
 MirrorFrom(c, fuel) ==
-  IF c.unspec THEN <<>>
-  ELSE IF Rd(c.mem, c.pc) = 0 \/ fuel = 0 THEN <<Regs(c)>>
-  ELSE <<Regs(c)>> \o MirrorFrom(StepM(c, TRUE), fuel - 1)
+  LET r == MirrorChunk(c, fuel, CHUNK) IN
+  IF r.done THEN r.p ELSE r.p \o MirrorFrom(r.c, r.fuel)
 MirrorPath(T) == MirrorFrom(Reset(T.entry, T.mem), FUEL)
 
 (* [v \in {"passed","failed","unspec"}, aid, visit, i] *)
@@ -262,8 +273,9 @@ Tick(T, s, once) ==
   ELSE IF s.n >= FUEL THEN [s1 EXCEPT !.status = "unspec"]
   ELSE [s1 EXCEPT !.c = Step(c)]
 
-RECURSIVE RunFrom(_, _, _)
-RunFrom(T, s, once) == IF s.status # "running" THEN s ELSE RunFrom(T, Tick(T, s, once), once)
+RECURSIVE RunChunk(_, _, _, _), RunFrom(_, _, _)
+RunChunk(T, s, once, k) == IF s.status # "running" \/ k = 0 THEN s ELSE RunChunk(T, Tick(T, s, once), once, k - 1)
+RunFrom(T, s, once) == LET r == RunChunk(T, s, once, CHUNK) IN IF r.status # "running" THEN r ELSE RunFrom(T, r, once)
 Run(T, once) == RunFrom(T, Start(T), once)
 
 (* the narrow witness of the open finding: the assertion the property fails the test at had already *)
